@@ -8,8 +8,6 @@
 
 struct WW32 { W32 v; NOP_VALUE(WW32, v); };
 template <> struct Meta<WW32> : MetaValue<WW32, F<WW32, W32, &WW32::v>> {};
-struct W8 { u8 v; NOP_VALUE(W8, v); };
-template <> struct Meta<W8> : MetaValue<W8, F<W8, u8, &W8::v>> {};
 struct S2b { S0b s; std::tuple<u8, i16> p; NOP_STRUCTURE(S2b, s, p); };
 template <> struct Meta<S2b> : MetaStruct<S2b, F<S2b, S0b, &S2b::s>, F<S2b, std::tuple<u8, i16>, &S2b::p>> {};
 struct LBV2 { std::array<u16, 3> d; u32 n; NOP_VALUE(LBV2, (d, n)); };
